@@ -58,3 +58,14 @@ Example guard_injective_refuted :
   guard nat 0 [7; 5; 15] [[16; 15; 9; 14; 20]] true = guard nat 0 [7; 5; 15; 0; 16; 15; 9; 14; 20] [] true /\
   ([7; 5; 15], [[16; 15; 9; 14; 20]]) <> ([7; 5; 15; 0; 16; 15; 9; 14; 20], @nil (list nat)).
 Proof. split; [reflexivity|discriminate]. Qed.
+
+(* correspondence: the `#ifndef` line of a generated header; characters are their code points, '_' = 95.
+   [observed] is the guard without its _D_HPP / _HPP suffix *)
+Fixpoint nat_list_eqb (a b : list nat) : bool :=
+  match a, b with
+  | [], [] => true
+  | x :: a', y :: b' => Nat.eqb x y && nat_list_eqb a' b'
+  | _, _ => false
+  end.
+Definition agree_guard (c : list nat) (r : list (list nat)) (decl : bool) (observed : list nat) (observed_decl : bool) : bool :=
+  nat_list_eqb (fst (guard nat 95 c r decl)) observed && Bool.eqb (snd (guard nat 95 c r decl)) observed_decl.
